@@ -273,7 +273,7 @@ func checkC11(c *Ctx) {
 		if idx < 0 {
 			continue
 		}
-		dn := f.Params[idx].Name()
+		dn := pname(f.Params[idx])
 		eachInstr(f, func(in ssa.Instruction) {
 			sl, ok := in.(*ssa.Slice)
 			if !ok {
